@@ -64,6 +64,7 @@ def step (line : String) : String :=
         s!"{n}:{if acc then "acc" else "rej"}:{if acc then "served" else "-"}")
     | none => "bad-op"
   | ["M", _] => "no-panic-or-see-oracle"
+  | ["A", _] => "no-panic"
   | ["B", what] =>
     -- the expectation table of the harness (oracle); the model side restates it for the loader-level cases it covers
     if what.startsWith "empty-rule" then "accepted up=1 served=0 alive=1" else
